@@ -177,7 +177,8 @@ def generate_composite_keys(
             ## raise TypeError(f"generate_composite_keys(..): expected element dict inside list, but got ({type(line)}){line}")
             # Not a record: the key is the JSON text of the item, which keeps its type apart
             # (1 <> '1', None <> 'None', '' <> the empty key of a record)
-            created_composite_key = json.dumps(line, default=repr)
+            # and, with sorted keys, is the same for equal dictionaries inside a nested list
+            created_composite_key = json.dumps(line, sort_keys=True, default=repr)
         composite_keys_for_all_lines.append((created_composite_key, line_i))
     return composite_keys_for_all_lines
 # ******************************************************************************
